@@ -448,7 +448,12 @@ func (g *G) Build(kind, variant string, optional []string, depth int, decorate b
 			}
 		}
 		if kind == "schema" && g.O.XOrder && g.coin(0.5) {
-			ms = append(ms, wire.M("x-order", g.pickXOrder()))
+			name := "x-order"
+			if g.coin(0.2) {
+				// a differently-cased spelling is an ordinary extension, not the ordering key
+				name = g.pick([]string{"X-Order", "X-order", "x-Order"})
+			}
+			ms = append(ms, wire.M(name, g.pickXOrder()))
 		}
 	}
 	return wire.ObjV(ms...)
